@@ -116,7 +116,8 @@ class C02(runner.Check):
 	assumptions = [
 		"leg 'rng'/'sweep' interpret the working-tree source of _fast_shuffle with CPython; "
 		"numba's permutation(m<=0)=empty semantics is reproduced by the RNG seam",
-		"seeds are restricted to < 2**31 - n (the jitted signature takes int32)",
+		"seeds are integers in [-2**31, 2**31 - n) (the jitted signature takes int32); "
+		"negative seeds are included: the pinned code accepts and reproduces them",
 		"a ValueError 'All dinucleotide shuffles yield identical sequences' (n > 1 on "
 		"a sequence with a unique Euler path) is the function declining to return, "
 		"which the statement allows",
@@ -180,7 +181,12 @@ class C02(runner.Check):
 		r = S("workload")
 		A = r.wchoice([2, 3, 4, 5, 6], [2, 2, 5, 1, 1])
 		if leg == "rng":
-			L = r.wchoice([r.randint(2, 12), r.randint(12, 60)], [1, 1])
+			# a few long sequences: some code paths depend on a character having
+			# hundreds of outgoing transitions
+			L = r.wchoice([r.randint(2, 12), r.randint(12, 60), r.randint(300, 2500)],
+				[10, 10, 1])
+			if L > 60:
+				A = r.choice([2, 2, 4])
 			n_ex = r.randint(1, 3)
 			seqs = [gen_sequence(r, A, L) for _ in range(n_ex)]
 			s = r.randint(0, max(0, L - 3))
@@ -192,9 +198,12 @@ class C02(runner.Check):
 				"identity", "reverse", "rotate"], [6, 1, 1, 1]),
 				"rng_seed": S("schedule").subseed(), "random_state": r.randint(0, 10 ** 6)}
 		# hist
-		L = r.randint(4, 40)
+		L = r.wchoice([r.randint(4, 40), r.randint(300, 2500)], [12, 1])
+		if L > 40:
+			A = r.choice([2, 2, 4])
 		pool = [gen_sequence(r, A, L) for _ in range(r.randint(1, 3))]
-		seeds = [r.randint(0, 2 ** 31 - 100) for _ in range(2)] + [0, 1]
+		seeds = [r.randint(0, 2 ** 31 - 100) for _ in range(2)] + [0, 1] + \
+			[r.choice([-1, -2, -7, -1000, -(2 ** 31) + 5])]
 		regions = [(0, -1), (0, L)]
 		for _ in range(2):
 			s = r.randint(0, L - 3)
@@ -208,6 +217,8 @@ class C02(runner.Check):
 				k = r.randint(1, len(pool))
 				op.update(ex=r.sample(range(len(pool)), k), region=list(r.choice(regions)),
 					n=r.choice([1, 1, 2, 3]), rs=r.choice(seeds), thread=r.chance(0.15))
+				if kind == "mono" and op["rs"] < 0:
+					op["rs"] = -op["rs"]        # RandomState rejects negative seeds
 			elif kind in ("np_seed", "nb_seed", "torch_seed"):
 				op["v"] = r.randint(0, 10 ** 6)
 			elif kind == "threads":
